@@ -46,6 +46,11 @@ CHECKS = {
          "Each of the 26 shapes and transforms is instantiated over a full Cartesian grid of its parameters (centres, radii, offsets, angles, named and general axes and planes, negative and non-uniform scales), imported and evaluated at a 125-point asymmetric grid; primitives and CSG are compared by sign with closed-form geometry away from the boundary, transforms via T(s)(p) = s(T^-1 p) on an asymmetric probe to 1e-4; every sequence of up to three transforms from an 8-step alphabet is compared with the composed reference.",
          "Trusted: my reading of the doc comments (listed in the evidence assumptions) and the f64 reference geometry.",
          "DESIGN.md §4 C16"),
+ "C19": ("model_checking",
+         "exhaustive enumeration of linear systems x fixed-parameter subsets x starts on the real solver (VM and JIT), vs. residual and key-set oracles",
+         "Five matrix families with known integer solutions are solved for every number of unknowns (1..=40 thorough) with every subset of parameters fixed for n <= 6 (2^n, including all and none) and structured subsets above, from a start away from the solution and from the exact solution, on both backends; the result keys must be exactly the free parameters, the exact start must come back bit-for-bit, the residual (fixed parameters at their values) must be below 1e-3 relative, backends must agree, and nothing may panic.",
+         "Trusted: the matrix families are well-conditioned by construction; the solver's internal HashMap order is uncontrolled (oracle is order-independent).",
+         "DESIGN.md §4 C19"),
  "C20": ("model_checking",
          "bounded-exhaustive enumeration of choice programs x points x boxes on VM and JIT tracing evaluators, vs. a reference interpreter over the register tape",
          "Every DAG of min/max/and/or clauses up to the node bound and chains of up to 200 clauses are evaluated by the VM (two budgets) and JIT point evaluators at every point of a special-value grid and by both interval evaluators on every box of an endpoint grid; each trace must have one Left/Right/Both entry per clause equal to what the operand values (from a reference interpreter over the emitted tape) or the evaluator's own operand intervals (exported as outputs) imply, be absent only if all clauses are undecided, and agree between VM and JIT; output-array shapes and function-vs-tape metadata are checked on every program.",
